@@ -59,6 +59,11 @@ class Prop:
     def extra_coverage(self, cases, impl):
         return {}
 
+    def cross_oracle(self, cases, impl, model):
+        """Failures that relate several cases (e.g. the two flavours of one case):
+        list of (case, failure)."""
+        return []
+
 
 def base_trusted():
     return [
@@ -138,6 +143,7 @@ def run_property(prop, tier, seed, replay=None):
             f = prop.oracle(c, impl.get(c.cid, {}), model.get(c.cid, {}))
             if f:
                 failures.append((c, f))
+        failures += prop.cross_oracle(cases, impl, model)
 
     # 5. verdict
     known = [k for k in core.load_known() if k.get("property") == pid and k.get("status", "known") == "known"]
